@@ -14,9 +14,9 @@ const seedMinimal = `{"swagger":"2.0","info":{"title":"t","version":"1"},"paths"
 const seedParams = `{"swagger":"2.0","info":{"title":"t","version":"1"},"consumes":["application/json"],"produces":["application/json"],
 "parameters":{"lim":{"name":"limit","in":"query","type":"integer","format":"int32","maximum":100,"default":10},"hdr":{"name":"X-Trace","in":"header","type":"string"},"off":{"name":"offset","in":"query","type":"integer"},"pid":{"name":"pid","in":"path","required":true,"type":"string"},"srt":{"name":"sort","in":"query","type":"string","enum":["a","b"]},"frm":{"name":"upload","in":"formData","type":"file"}},
 "paths":{"/p/{id}":{"parameters":[{"name":"id","in":"path","required":true,"type":"string","pattern":"^[a-z]+$"}],
- "post":{"operationId":"p","parameters":[{"$ref":"#/parameters/lim"},{"name":"h","in":"header","type":"array","items":{"type":"string","enum":["a","b"]},"collectionFormat":"csv","default":["a"]},
+ "post":{"operationId":"p","parameters":[{"$ref":"#/parameters/lim"},{"name":"h","in":"header","type":"array","items":{"type":"string","enum":["a","b"],"pattern":"^[ab]$"},"collectionFormat":"csv","default":["a"]},
    {"name":"body","in":"body","required":true,"schema":{"$ref":"#/definitions/Item"}}],
-  "responses":{"200":{"description":"ok","schema":{"type":"array","items":{"$ref":"#/definitions/Item"}},"headers":{"X-Rate":{"type":"integer","default":1}},"examples":{"application/json":[{"name":"n"}]}},"default":{"$ref":"#/responses/err"}}},
+  "responses":{"200":{"description":"ok","schema":{"type":"array","items":{"$ref":"#/definitions/Item"}},"headers":{"X-Rate":{"type":"integer","default":1},"X-Tag":{"type":"array","items":{"type":"string","pattern":"^t"},"pattern":"^t"}},"examples":{"application/json":[{"name":"n"}]}},"default":{"$ref":"#/responses/err"}}},
  "put":{"operationId":"u","consumes":["multipart/form-data"],"parameters":[{"name":"f","in":"formData","type":"file"},{"name":"q","in":"formData","type":"string","minLength":1}],"responses":{"204":{"description":"done"}}}}},
 "responses":{"err":{"description":"error","schema":{"$ref":"#/definitions/Err"}}},
 "definitions":{"Item":{"type":"object","required":["name"],"properties":{"name":{"type":"string","example":"n"},"tags":{"type":"array","items":{"type":"string"}},"n":{"type":"integer","default":3}}},
@@ -307,6 +307,46 @@ func singleEdits(seedName, seed string, extraNames bool) []specEdit {
 						}); ok {
 							emit(fmt.Sprintf("add patternProperties %q to %s", key, pt), d)
 						}
+					}
+				}
+			}
+			// a body parameter that also carries a simple type; an array schema with additionalItems
+			// (not Swagger, reached by the default/example walkers under continue-on-errors)
+			if o, isObj := n.val.(map[string]any); isObj {
+				if o["in"] == "body" {
+					if d, ok := editAt(root, p, func(parent, k any) bool {
+						var obj map[string]any
+						switch t := parent.(type) {
+						case map[string]any:
+							obj, _ = t[k.(string)].(map[string]any)
+						case []any:
+							obj, _ = t[k.(int)].(map[string]any)
+						}
+						if obj == nil {
+							return false
+						}
+						obj["type"] = "string"
+						return true
+					}); ok {
+						emit("add type string to the body parameter "+pt, d)
+					}
+				}
+				if _, has := o["items"]; has && o["type"] == "array" {
+					if d, ok := editAt(root, p, func(parent, k any) bool {
+						var obj map[string]any
+						switch t := parent.(type) {
+						case map[string]any:
+							obj, _ = t[k.(string)].(map[string]any)
+						case []any:
+							obj, _ = t[k.(int)].(map[string]any)
+						}
+						if obj == nil {
+							return false
+						}
+						obj["additionalItems"] = map[string]any{"type": "string", "default": 1.0, "example": 2.0, "pattern": "^(unclosed"}
+						return true
+					}); ok {
+						emit("add additionalItems with a default to "+pt, d)
 					}
 				}
 			}
